@@ -67,6 +67,11 @@ def run_one(mod, cls, idx, base_seed):
 def worker(prop, tier, k, n, outpath, base_seed):
     import faulthandler
     faulthandler.enable()
+    cov = None
+    if os.environ.get('MV_COVER'):      # diagnostic only (tools/cover.sh): which lines of mystic the workload reaches
+        import coverage
+        cov = coverage.Coverage(data_file=os.path.join(os.environ['MV_COVER'], 'cov.%s' % prop), data_suffix=True, source=[os.path.join(env.REPO, 'mystic')])
+        cov.start()
     mod = load(prop)
     cases = all_cases(mod, tier)
     mine = [c for i, c in enumerate(cases) if i % n == k]
@@ -109,6 +114,8 @@ def worker(prop, tier, k, n, outpath, base_seed):
                 if len(agg['violations']) < MAXV_WORKER:
                     agg['violations'].append({'class': cls, 'idx': idx, 'seed': r['seed'],
                                               'desc': r['desc'], 'record': v})
+    if cov is not None:
+        cov.stop(); cov.save()
     agg['nontrivial_keys'] = sorted(keys)
     agg['wall_s'] = time.time() - t0
     with open(outpath, 'w') as f:
